@@ -6,7 +6,7 @@ import vlib
 
 THEOREMS = ["Slock.C10F." + t for t in (
     "C10F_never_decides_partial C10F_fabricated_codes C10F_not_local_partial C10F_refusal_reason C10F_never_decides_violated "
-    "C10F_never_decides_violated_first_text C10F_relay_unchanged C10F_relay_binary_unconditional C10F_forward_unchanged "
+    "C10F_first_text_command_refused_locally C10F_relay_unchanged C10F_relay_binary_unconditional C10F_forward_unchanged "
     "C10F_forward_nothing_else C10F_same_outcome C10F_same_outcome_text C10F_one_reply C10F_delivered_spec C10F_one_reply_exactly "
     "C10F_text_unblocked C10F_one_reply_link_loss_violated C10F_one_reply_rerouted_violated C10F_one_reply_early_violated "
     "C10F_late_init_unanswered C10F_init_answer_unattached C10F_role_change C10F_role_change_back C10F_local_exclusive").split()]
@@ -23,9 +23,17 @@ ASSUMPTIONS = [
     "the leader is abstract in the model: its frames (`r …` events) are read off the wire by the proxy and fed to the model; what the node's own "
     "engine answers when the node IS the leader (`loc`) is outside this model (engine half of C10)",
     "granularity: one event = one complete reaction (request processed / frame relayed / rollback done), observed at quiescence; Write to a link "
-    "whose socket is up succeeds; the two races that showed up at this granularity (the leader's answer is read before Write records the command "
-    "as latest; a frame read from a fresh link before CheckClient attached the link object) are explicit inputs (`re …`, `rx …`) which the harness sets from what the real link object shows; CheckClient racing with a concurrent link loss, the 2 s arbiterWaiter delay (the harness wakes "
-    "the manager instead of waiting), idle-link pooling of text connections and will commands (forwarded at Close) are not modelled",
+    "whose socket is up succeeds. Two races of the real code show at this granularity and are explicit inputs of the model, set by the harness: "
+    "`re …` (the leader's answer was read before Write recorded the command as latest) is read off the real link object AFTER both goroutines are "
+    "done (the client already holds the relay, which is written after the reader's comparison; the harness waits until latestRequestId shows the "
+    "command, then latestCommandType tells the order) — a stable verdict, not a guess; `rx …` (a frame read from a fresh link before CheckClient "
+    "attached the link object: dropped unseen) is decided by ordering evidence (the relay of a LATER frame of the same link has arrived, the reader "
+    "handles frames in order) and only when the link carries no later frame by 3 s of silence. Binary client frames are attributed to events by "
+    "(type, RequestId), not by arrival position, so independent streams may interleave freely; a frame no event accounts for is reported "
+    "(C10:harness-unattributed-frame). Not modelled: CheckClient racing with a concurrent link loss, the 2 s arbiterWaiter delay (the harness "
+    "wakes the manager instead of waiting), idle-link pooling of text connections, will commands (forwarded at Close)",
+    "a first short text command that the node's own engine refuses with STATE_ERROR is within the statement (refuse or forward): counted as "
+    "observation C10:refused-first-text-command, not a monitor failure; C10:no-reply-after-link-loss is an observation (VERIF_TRANS_STRICT off)",
     "C10F_one_reply is proved under OkRun: the client does not reuse a RequestId on a connection; the leader answers a forwarded LOCK/UNLOCK at "
     "most once and on the link instance it arrived on; no answer overtakes Write's bookkeeping. The two ways the real system leaves OkRun are "
     "proved as counterexamples (C10F_one_reply_rerouted_violated, C10F_one_reply_early_violated) and monitored",
